@@ -654,3 +654,277 @@ func ruleStoredBlocksDownsampled(r *Run) {
 	}
 	r.check(n >= 1, "label-types:block-stores-in-downres-loops", fmt.Sprintf("%d", n), "none found: rule needs review", "-")
 }
+
+// ---------------------------------------------------------------------------------------------
+// C17 round e.
+
+func init() {
+	register(ruleDef{ID: "R17.7", Prop: "C17", Tier: "quick", Floor: 2,
+		Title: "grown extents are reported: the result of Extents.AdjustPoints is computed from the change of the minimum and from the change of the maximum (both, not the last one assigned), since the callers persist the extents only when it says true",
+		Fn:    ruleAdjustReportsBothEnds})
+	register(ruleDef{ID: "R17.8", Prop: "C17", Tier: "quick", Floor: 2,
+		Title: "a block read for a span lands at its own place: in imageblk's span reader the bounds of the output slice handed to the transfer goroutine are computed from the block coordinate decoded from the key, not from the number of blocks received",
+		Fn:    ruleSpanBlockPlacedByKey})
+	reg := func(id, prop string) {
+		register(ruleDef{ID: id, Prop: prop, Tier: "quick", Floor: 2,
+			Title: "a mutex shared by goroutines is made once: in every data-type function that starts goroutines in a loop, a sync.Mutex locked inside such a goroutine is not allocated inside that loop (one mutex per iteration serialises nothing, and the goroutines write to the shared response at once)",
+			Fn:    ruleSharedMutexOutsideLoop})
+	}
+	reg("R17.9", "C17")
+	reg("R20.34", "C20")
+	register(ruleDef{ID: "R17.10", Prop: "C17", Tier: "quick", Floor: 2,
+		Title: "every block that was written into is stored: in imageblk's chunk writer no return is reachable after the voxels were written into the block without passing the store (Put / PutCallback) or an error report",
+		Fn:    ruleWrittenBlockStored})
+}
+
+func ruleAdjustReportsBothEnds(r *Run) {
+	w := r.W
+	f := w.method("dvid", "Extents", "AdjustPoints")
+	if f == nil {
+		r.undecided("dvid.Extents.AdjustPoints", "anchor not found")
+		return
+	}
+	var minCall, maxCall ssa.Value
+	for _, c := range calls(f) {
+		if cv, ok := c.(*ssa.Call); ok {
+			switch methodNameOf(c) {
+			case "Min":
+				minCall = cv
+			case "Max":
+				maxCall = cv
+			}
+		}
+	}
+	r.check(minCall != nil && maxCall != nil, "AdjustPoints:min-and-max", "both ends are adjusted", "the Min/Max calls were not found: rule needs review", w.fpos(f))
+	ok := false
+	for _, b := range f.Blocks {
+		if ret, isRet := b.Instrs[len(b.Instrs)-1].(*ssa.Return); isRet && len(ret.Results) == 1 {
+			deps := dataDeps(ret.Results[0])
+			// `a || b` compiles to a branch on a: what decides a dominating branch also decides the result
+			for _, b2 := range f.Blocks {
+				if ifi, isIf := b2.Instrs[len(b2.Instrs)-1].(*ssa.If); isIf && b2.Dominates(b) {
+					for d := range dataDeps(ifi.Cond) {
+						deps[d] = true
+					}
+				}
+			}
+			if minCall != nil && maxCall != nil && deps[minCall] && deps[maxCall] {
+				ok = true
+			}
+		}
+	}
+	r.check(ok, "AdjustPoints:result-from-both-ends", "the result depends on the change of the minimum and of the maximum",
+		"the result reports only the last comparison: a write that extends the volume towards smaller coordinates only returns false, the callers skip persisting the extents, and the advertised extents no longer cover the written voxels", w.fpos(f))
+}
+
+func ruleSpanBlockPlacedByKey(r *Run) {
+	w := r.W
+	n := 0
+	for _, f := range w.RepoFuncs {
+		if relPkg(pkgPathOf(f)) != "datatype/imageblk" || len(f.Blocks) == 0 || strings.HasSuffix(w.fposFile(f), "_test.go") {
+			continue
+		}
+		// the chunk callback: it decodes the key and starts a transfer goroutine on a slice of the buffer
+		var decode ssa.Value
+		for _, c := range calls(f) {
+			if callee := staticCallee(c); callee != nil && callee.Name() == "DecodeTKey" {
+				decode, _ = c.(*ssa.Call)
+			}
+		}
+		if decode == nil {
+			continue
+		}
+		for _, b := range f.Blocks {
+			for _, in := range b.Instrs {
+				g, ok := in.(*ssa.Go)
+				if !ok || len(g.Call.Args) == 0 {
+					continue
+				}
+				sl, ok := g.Call.Args[0].(*ssa.Slice)
+				if !ok || sl.Low == nil {
+					continue
+				}
+				n++
+				r.check(dataDeps(sl.Low)[decode], fname(f)+":span-block:placed-by-key", "the slice bounds come from the decoded block coordinate",
+					"the place of a block in the span's output is computed without the block coordinate decoded from its key: when an earlier block of the span was never written, the later blocks shift into its place", w.pos(sl.Pos()))
+			}
+		}
+	}
+	r.check(n >= 1, "imageblk:span-readers", fmt.Sprintf("%d", n), "none found: rule needs review", "-")
+}
+
+func ruleSharedMutexOutsideLoop(r *Run) {
+	w := r.W
+	n := 0
+	for _, f := range w.RepoFuncs {
+		if !strings.HasPrefix(relPkg(pkgPathOf(f)), "datatype/") || len(f.Blocks) == 0 || f.Parent() != nil || strings.HasSuffix(w.fposFile(f), "_test.go") {
+			continue
+		}
+		loops := naturalLoops(f)
+		k := 0
+		for _, b := range f.Blocks {
+			for _, in := range b.Instrs {
+				g, ok := in.(*ssa.Go)
+				if !ok {
+					continue
+				}
+				mc, ok := g.Call.Value.(*ssa.MakeClosure)
+				if !ok {
+					continue
+				}
+				var loop map[*ssa.BasicBlock]bool
+				for _, s := range loops {
+					if s[b] && (loop == nil || len(s) < len(loop)) {
+						loop = s
+					}
+				}
+				if loop == nil {
+					continue
+				}
+				cl, _ := mc.Fn.(*ssa.Function)
+				if cl == nil {
+					continue
+				}
+				// mutexes the goroutine locks through a captured variable
+				for i, bind := range mc.Bindings {
+					if i >= len(cl.FreeVars) {
+						continue
+					}
+					locked := false
+					for _, ref := range *cl.FreeVars[i].Referrers() {
+						vals := []ssa.Value{}
+						if ld, ok := ref.(*ssa.UnOp); ok {
+							vals = append(vals, ld)
+						}
+						if v, ok := ref.(ssa.Value); ok {
+							vals = append(vals, v)
+						}
+						for _, v := range vals {
+							if v.Referrers() == nil {
+								continue
+							}
+							for _, r2 := range *v.Referrers() {
+								if c, ok := r2.(ssa.CallInstruction); ok {
+									if callee := staticCallee(c); callee != nil && (callee.Name() == "Lock" || callee.Name() == "RLock") && callee.Pkg != nil && callee.Pkg.Pkg.Path() == "sync" {
+										locked = true
+									}
+								}
+							}
+						}
+						if c, ok := ref.(ssa.CallInstruction); ok {
+							if callee := staticCallee(c); callee != nil && callee.Name() == "Lock" && callee.Pkg != nil && callee.Pkg.Pkg.Path() == "sync" {
+								locked = true
+							}
+						}
+					}
+					if !locked {
+						continue
+					}
+					k++
+					n++
+					// where is the mutex made?
+					inside := false
+					for d := range dataDeps(bind) {
+						if al, ok := d.(*ssa.Alloc); ok && strings.Contains(al.Type().String(), "sync.") && al.Heap && loop[al.Block()] {
+							inside = true
+						}
+					}
+					r.check(!inside, fmt.Sprintf("%s:goroutine-mutex#%d:made-outside-the-loop", fname(f), k), "the mutex the goroutines lock is made before the loop",
+						"the mutex that the goroutines of this loop lock is allocated inside the loop: every goroutine gets its own, nothing is serialised, and they write to the shared response writer at the same time (interleaved or torn records)", w.pos(g.Pos()))
+				}
+			}
+		}
+	}
+	r.check(n >= 1, "datatypes:goroutines-locking-a-captured-mutex", fmt.Sprintf("%d", n), "none found: rule needs review", "-")
+}
+
+func ruleWrittenBlockStored(r *Run) {
+	w := r.W
+	sinks := w.newSinks()
+	n := 0
+	for _, f := range w.RepoFuncs {
+		if relPkg(pkgPathOf(f)) != "datatype/imageblk" || len(f.Blocks) == 0 || strings.HasSuffix(w.fposFile(f), "_test.go") {
+			continue
+		}
+		var wb ssa.Instruction
+		for _, c := range calls(f) {
+			if methodNameOf(c) == "WriteBlock" {
+				wb = c
+			}
+		}
+		if wb == nil {
+			continue
+		}
+		stores := false
+		for _, c := range calls(f) {
+			if sinks.isStorageWrite(c) || methodNameOf(c) == "PutCallback" {
+				stores = true
+			}
+		}
+		if !stores {
+			continue
+		}
+		n++
+		barrier := func(x ssa.Instruction) bool {
+			c, ok := x.(ssa.CallInstruction)
+			if !ok {
+				return false
+			}
+			if sinks.isStorageWrite(c) || methodNameOf(c) == "PutCallback" {
+				return true
+			}
+			if callee := staticCallee(c); callee != nil && (callee.Name() == "Errorf" || callee.Name() == "Criticalf") {
+				return true
+			}
+			return false
+		}
+		p := findPath(f, wb, barrier, func(x ssa.Instruction) bool { _, ok := x.(*ssa.Return); return ok }, allEdges)
+		r.check(p == nil, fname(f)+":written-block-stored", "every return after the voxels were written passes the store or an error report",
+			"the chunk writer can return silently after the posted voxels were written into the block and before the block was stored: the write is acknowledged and the old (or no) block stays in the store", w.pos(wb.Pos()), w.renderPath(p)...)
+	}
+	r.check(n >= 1, "imageblk:chunk-writers", fmt.Sprintf("%d", n), "none found: rule needs review", "-")
+}
+
+func init() {
+	register(ruleDef{ID: "R17.11", Prop: "C17", Tier: "quick", Floor: 3,
+		Title: "a block's byte length counts the bytes per voxel: in imageblk, every byte buffer sized from the product of the block size is sized from that product times Values.BytesPerElement",
+		Fn:    ruleBlockBytesPerVoxel})
+}
+
+func ruleBlockBytesPerVoxel(r *Run) {
+	w := r.W
+	n := 0
+	for _, f := range w.RepoFuncs {
+		if relPkg(pkgPathOf(f)) != "datatype/imageblk" || len(f.Blocks) == 0 || strings.HasSuffix(w.fposFile(f), "_test.go") {
+			continue
+		}
+		k := 0
+		for _, b := range f.Blocks {
+			for _, in := range b.Instrs {
+				ms, ok := in.(*ssa.MakeSlice)
+				if !ok || !strings.HasSuffix(ms.Type().String(), "[]byte") {
+					continue
+				}
+				usesProd, usesBPE := false, false
+				for d := range dataDeps(ms.Len) {
+					if c, ok := d.(*ssa.Call); ok {
+						switch methodNameOf(c) {
+						case "Prod":
+							usesProd = true
+						case "BytesPerElement":
+							usesBPE = true
+						}
+					}
+				}
+				if !usesProd {
+					continue
+				}
+				k++
+				n++
+				r.check(usesBPE, fmt.Sprintf("%s:block-buffer#%d:bytes-per-voxel", fname(f), k), "the buffer length multiplies in the bytes per voxel",
+					"a block buffer is sized as the number of voxels of a block, without the bytes per voxel: for 16-, 32- or 64-bit voxel types a fraction of each block is read and stored, reads return zeros, and slicing the short stored block panics in a block goroutine", w.pos(ms.Pos()))
+			}
+		}
+	}
+	r.check(n >= 3, "imageblk:block-sized-buffers", fmt.Sprintf("%d", n), "fewer than confirmed by reading: rule needs review", "-")
+}
